@@ -55,21 +55,31 @@ theorem C05_truncated_rejected (bl : Nat) (bt : BaseType) (enc : Option Enc) (hl
   simp [bind, run_bind, run_getS, hshort, run_ite, run_raise]
 
 /-- **Truncated PDUs are rejected, struct tier (API level of the model).** For every nested description with VALUE /
-    CODED-CONST leaves over the five leaf kinds: `(Trees.pair ts).fits` says that the bytes of *every* leaf — at the
-    position the decoder reaches it — lie inside the message. If they do not, `Request.decode` raises `DecodeError`;
-    if `Request.decode` returns, they do (`C05_no_invention_struct`): no value is ever produced from bytes that are
-    not there. -/
+    CODED-CONST leaves over the leaf kinds of `Proofs/FlatStep.lean`: `(Trees.pair ts).fits` says that the bytes of *every*
+    leaf — at the position the decoder reaches it — lie inside the message, and (string leaves with a multi-byte encoding)
+    are well-formed text. If they are not, `Request.decode` raises `DecodeError`;
+    if `Request.decode` returns, they are (`C05_no_invention_struct`): no value is ever produced from bytes that are
+    not there. `Trees.strictDec ts` = no `A_FLOAT32` leaf (trivially true for the integer / float64 / byte / string kinds):
+    the model does not follow binary32 NaN / subnormal patterns, so a description with such a leaf in front of the missing
+    bytes is only covered by `C05_unfit_rejected_struct` (rejected, error class not determined by the model). -/
 theorem C05_truncated_rejected_struct (ts : List Tree) (hneed : Trees.need ts + 2 ≤ modelFuel) (hok : Trees.okAll ts)
-    (msg : Bytes) (hshort : ¬ (Trees.pair ts).fits { msg := msg }) :
+    (msg : Bytes) (hshort : ¬ (Trees.pair ts).fits { msg := msg }) (hs : Trees.strictDec ts) :
     decodeMessage none (Trees.toParams ts) msg true = .error .decode :=
-  decodeMessage_tree_short ts hneed hok msg hshort
+  decodeMessage_tree_short ts hneed hok msg hshort hs
+
+/-- the same for every description of the tier, `A_FLOAT32` leaves included: `Request.decode` does not return -/
+theorem C05_unfit_rejected_struct (ts : List Tree) (hneed : Trees.need ts + 2 ≤ modelFuel) (hok : Trees.okAll ts)
+    (msg : Bytes) (hshort : ¬ (Trees.pair ts).fits { msg := msg }) :
+    ∃ e, decodeMessage none (Trees.toParams ts) msg true = .error e ∧ (Trees.strictDec ts → e = .decode) :=
+  decodeMessage_tree_unfit ts hneed hok msg hshort
 
 theorem C05_no_invention_struct (ts : List Tree) (hneed : Trees.need ts + 2 ≤ modelFuel) (hok : Trees.okAll ts)
     (msg : Bytes) (v : PVal) (c : Nat) (h : decodeMessage none (Trees.toParams ts) msg true = .ok (v, c)) :
     (Trees.pair ts).fits { msg := msg } := by
   apply Classical.byContradiction
   intro hd
-  rw [decodeMessage_tree_short ts hneed hok msg hd] at h
+  obtain ⟨e, he, _⟩ := decodeMessage_tree_unfit ts hneed hok msg hd
+  rw [he] at h
   cases h
 
 /-! non-vacuity: a 2-byte message for a 3-byte description is rejected with a decode error; random bytes
